@@ -32,9 +32,9 @@ WORK = os.path.join(vlib.WORK, "C02")
 RUN = os.path.join(WORK, "run")
 KEYS = os.path.join(WORK, "keys")
 THEOREMS = ["crc_bridge", "crc_ok", "sig_range_v1", "certblock_lengths_v1", "hmac_ok", "enc_roundtrip", "sig_range_v21",
-            "manifest_digest", "coverage_mbi", "kinds_cover_database"]
-# refutation witnesses of recorded findings: expected to hold while the finding is open (see refuted_theorems)
-REFUTED = {"digest_alg_mismatch_refuted": "C02-F1", "enc_empty_keystore_refuted": "C02-F2"}
+            "manifest_digest", "digest_alg_refused", "coverage_mbi", "kinds_cover_database"]
+# refutation witnesses of recorded findings (none open at present): expected to hold while the finding is open
+REFUTED = {}
 MIXIN_IDS = ["MixinApp", "MixinTrustZone", "MixinTrustZoneMandatory", "MixinLoadAddress", "MixinLoadAddressOptional",
              "MixinFwVersion", "MixinImageVersion", "MixinImageSubType", "MixinIvt", "MixinIvtZeroTotalLength",
              "MixinBcaTable", "MixinBcaObsolete", "MixinFcfObsolete", "MixinRelocTable", "MixinManifest", "MixinManifestCrc",
@@ -46,7 +46,6 @@ MIXIN_IDS = ["MixinApp", "MixinTrustZone", "MixinTrustZoneMandatory", "MixinLoad
              "ExportMixinAppTrustZoneCertBlockEncrypt"]
 DIGEST = {None: 0, "sha256": 1, "sha384": 2, "sha512": 3}
 PAIRS = [(n, m) for n in range(1, 5) for m in range(n)]          # (number of root keys, signing root)
-KNOWN_CLASSES = {"empty-key-store", "digest-alg-differs-from-signature-hash"}
 
 
 # ------------------------------------------------------------------ classes
@@ -73,9 +72,11 @@ def kind_of(ms, image_type):
     return "other"
 
 
-def rom_cfg(fam, ms, image_type=None):
+def rom_cfg(fam, ms, image_type=None, case=None):
+    """the device the image is built for, from the CONFIGURATION of the case (never from SPSDK's object state)"""
     s = set(short(ms))
     return {"types": None if image_type is None else [image_type],
+            "ks_configured": bool(case) and case.get("opts", {}).get("key_store") is not None,
             "cb": "v1" if "MixinCertBlockV1" in s else "v21" if "MixinCertBlockV21" in s else "vx" if "MixinCertBlockVx" in s else None,
             "hmac": bool(s & {"MixinHmac", "MixinHmacMandatory"}), "tzsize": fam["tz_size"],
             "fixed_type": fam["fixed_image_type"] if fam["fixed_image_type"] >= 0 else None,
@@ -210,6 +211,16 @@ def gen_cases(tier, rng, db, idx):
             al = max(f.get("isk_data_alignment", 4), 1)
             c["isk_data"] = rnd(rng, min(al * dl * 4, max(f.get("isk_data_limit", 96), al))).hex()
         add("ECC root sets x ISK", f, o, rng.choice([96, 200, 333]), cert=c, variant=i)
+    # C2: root keys with a leading zero byte in X / in Y, as the signing root and as a spare, in sets of 2..4
+    lz = [(cv, co, n, pos, main) for cv in ("p256", "p384") for co in ("lzx", "lzy") for n in (2, 3, 4)
+          for pos in range(n) for main in range(n)]
+    if not thorough:
+        lz = [(cv, co, n, pos, main) for (cv, co, n, pos, main) in lz
+              if (n, pos, main) in ((2, 0, 0), (2, 1, 0), (3, 2, 2), (3, 0, 1), (4, 3, 3), (4, 1, 2))]
+    for i, (cv, co, n, pos, main) in enumerate(lz):
+        f, o = v21[i % len(v21)]
+        c = c02_keys.ecc_case(idx, cv, n, main, [None, cv][i % 2], special=(pos, co))
+        add("ECC roots with a leading-zero coordinate", f, o, rng.choice([96, 200]), cert=c, variant=i)
     # D: payload lengths
     lens = [0x38, 0x39, 0x3B, 0x3C, 0x3F, 0x40, 0x41, 0x44, 0x50, 0xFF, 0x100, 0x1FF, 0x200, 0x201, 0x400, 0x7FF]
     if thorough:
@@ -277,7 +288,8 @@ def mbi_value(ob):
 
 
 def cfg_value(cfg):
-    return VL([VI({"v1": 1, "v21": 2}.get(cfg["cb"], 0)), VI(int(cfg["hmac"])), VI(cfg["tzsize"]), VI(int(cfg["manifest_crc"])), VI(cfg["types"][0])])
+    return VL([VI({"v1": 1, "v21": 2}.get(cfg["cb"], 0)), VI(int(cfg["hmac"])), VI(cfg["tzsize"]), VI(int(cfg["manifest_crc"])), VI(cfg["types"][0]),
+               VI(int(cfg["ks_configured"]))])
 
 
 def lit(v):
@@ -424,12 +436,25 @@ def input_classes(case, res, kind):
     return cls
 
 
+def expected_rot(case):
+    """(table entries, RKTH) computed from the configured root keys / certificates with `cryptography` + hashlib only"""
+    c = case.get("cert") or {}
+    if c.get("kind") == "v1":
+        return rom.expected_rot_v1(c["roots"])
+    if c.get("kind") == "v21":
+        return rom.expected_rot_v21(c["roots"])
+    return None
+
+
 def rom_keys(case, res):
-    keys = {"rkth": bytes.fromhex(res["rkth"]) if isinstance(res.get("rkth"), str) else None,
-            "user_key": bytes.fromhex(case["opts"]["hmac_key"]) if case["opts"].get("hmac_key") else None}
-    ch = (res.get("input", {}).get("cert") or {}).get("cert_hash")
-    if ch and keys["rkth"] is None:
-        keys["rkth"] = bytes.fromhex(ch)
+    """what is provisioned in the device: RKTH from the configured root keys (independently of SPSDK), the user / master key"""
+    keys = {"rkth": None, "user_key": bytes.fromhex(case["opts"]["hmac_key"]) if case["opts"].get("hmac_key") else None}
+    rot = expected_rot(case)
+    if rot:
+        keys["rkth"] = rot[1]
+    else:
+        ch = (res.get("input", {}).get("cert") or {}).get("cert_hash")       # MC56F81xxx: hash of the ISK certificate
+        keys["rkth"] = bytes.fromhex(ch) if ch else (bytes.fromhex(res["rkth"]) if isinstance(res.get("rkth"), str) else None)
     return keys
 
 
@@ -449,13 +474,17 @@ def oracle(case, res, fam, offer):
     ms = res["mixins"]
     kind = kind_of(ms, res["image_type"])
     img = bytes.fromhex(res["image"])
-    cfg = rom_cfg(fam, ms, res["image_type"])
+    cfg = rom_cfg(fam, ms, res["image_type"], case)
     keys = rom_keys(case, res)
     cls = ",".join(input_classes(case, res, kind)) or "-"
     fails = []
 
     def fail(what, msg):
         fails.append((f"{what}:{kind}:{cls}", f"{case['family']} {case['target']}/{case['auth']} ({kind}): {msg}"))
+    rot = expected_rot(case)
+    if rot and (not isinstance(res.get("rkth"), str) or bytes.fromhex(res["rkth"]) != rot[1]):
+        fail("rkth", "MasterBootImage.rkth is not the hash of the table of hashes of the configured root keys "
+                     f"(reported {res.get('rkth')}, expected {rot[1].hex()})")
     ok, r = rom.accept(cfg, keys, img)
     if not ok:
         reason = re.sub(r"[0-9]+", "N", r.split(":")[0])[:60].strip().replace(" ", "-")
@@ -606,6 +635,7 @@ def run(tier):
     streams = {}
     accepted = []                 # (stream, case, fam, offer, res, romresult, kind)
     rejected = []                 # exported, but rejected by the reference ROM: (case, res)
+    refused = []                  # loaded, export refused with an SPSDK error: (case, res)
     rejected_inputs = 0
     for (stream, case, fam, offer) in gen:
         res = results[id(case)]
@@ -615,6 +645,8 @@ def run(tier):
             rejected_inputs += 1
             err = res.get("export") or res.get("load") or res.get("config")
             # an input SPSDK refuses is not an exported image; a non-SPSDK exception or a hang is reported
+            if isinstance(err, list) and err[1] == 1 and res.get("export") and res.get("input") and model_supported(res["mixins"]):
+                refused.append((case, res))
             if isinstance(err, list) and err[1] != 1:
                 rep.failing(f"export-crash:{kind_of(offer['mixins'], offer['image_type'])}:kind{err[1]}",
                             f"export of {case['family']} {case['target']}/{case['auth']} ends with {err[2]}",
@@ -626,7 +658,7 @@ def run(tier):
         for sig, msg in fails:
             rep.failing(sig, "exported image violates C02: " + msg,
                         {"kind": "impl-oracle", "case": case, "image": res["image"], "rkth": res.get("rkth"),
-                         "rom_cfg": rom_cfg(fam, res["mixins"], res["image_type"]), "how": "tools/props/c02.py --replay <this file>"})
+                         "rom_cfg": rom_cfg(fam, res["mixins"], res["image_type"], case), "how": "tools/props/c02.py --replay <this file>"})
         st["exported"].add(hashlib.sha1(bytes.fromhex(res["image"])).hexdigest())
         if len(st["samples"]) < 3:
             st["samples"].append({"family": case["family"], "target": case["target"], "auth": case["auth"],
@@ -641,7 +673,7 @@ def run(tier):
     ntamper, tamper_samples, tamper_model = 0, [], []
     for (stream, case, fam, offer, res, r, kind) in accepted:
         img = bytes.fromhex(res["image"])
-        cfg, keys = rom_cfg(fam, res["mixins"], res["image_type"]), rom_keys(case, res)
+        cfg, keys = rom_cfg(fam, res["mixins"], res["image_type"], case), rom_keys(case, res)
         every = thorough and len(img) <= 700
         for (p, nm) in tamper_positions(rng, img, r, kind, every):
             bad = bytearray(img)
@@ -672,7 +704,7 @@ def run(tier):
             for (stream, case, fam, offer, res, r, kind) in accepted:
                 if not model_supported(res["mixins"]):
                     continue
-                cfg, keys = rom_cfg(fam, res["mixins"], res["image_type"]), rom_keys(case, res)
+                cfg, keys = rom_cfg(fam, res["mixins"], res["image_type"], case), rom_keys(case, res)
                 img = bytes.fromhex(res["image"])
                 args = [cfg_value(cfg), VB(keys["rkth"] or b""), VB(keys["user_key"] or b""), VB(img)]
                 exprs.append("MbiRomModel.run_case 1 [" + "; ".join(lit(a) for a in args) + "]")
@@ -680,8 +712,7 @@ def run(tier):
                 sig = bytes.fromhex(res["signed"][0][1]) if res.get("signed") else b""
                 exprs.append("MbiRomModel.run_case 2 [" + "; ".join(lit(a) for a in
                              [class_value(res["mixins"], res["image_type"]), mbi_value(res["input"]), VB(sig)]) + "]")
-                # inputs in the class of a recorded finding: an upstream repair must not be reported (either outcome accepted)
-                expect.append(("export-known" if set(input_classes(case, res, kind)) & KNOWN_CLASSES else "export", case, res, r))
+                expect.append(("export", case, res, r))
             for (case, res) in rejected:
                 if not model_supported(res["mixins"]):
                     continue
@@ -689,6 +720,10 @@ def run(tier):
                 exprs.append("MbiRomModel.run_case 2 [" + "; ".join(lit(a) for a in
                              [class_value(res["mixins"], res["image_type"]), mbi_value(res["input"]), VB(sig)]) + "]")
                 expect.append(("export", case, res, None))
+            for (case, res) in refused:
+                exprs.append("MbiRomModel.run_case 2 [" + "; ".join(lit(a) for a in
+                             [class_value(res["mixins"], res["image_type"]), mbi_value(res["input"]), VB(b"")]) + "]")
+                expect.append(("refused", case, res))
             for (cfg, keys, bad, structural) in tamper_model:
                 args = [cfg_value(cfg), VB(keys["rkth"] or b""), VB(keys["user_key"] or b""), VB(bad)]
                 exprs.append("MbiRomModel.run_case 3 [" + "; ".join(lit(a) for a in args) + "]")
@@ -703,8 +738,10 @@ def run(tier):
                     want = ("l", [("i", 1), ("b", r["plain"]), ("b", r["msg"]), ("l", [enc_obl(o) for o in r["obl"]])])
                     if g != want:
                         bad = f"ROM model differs from the reference ROM on the image exported for {case['family']} {case['target']}/{case['auth']}"
-                elif e[0] == "export-known":
-                    pass
+                elif e[0] == "refused":
+                    if g != ("e", 1):
+                        bad = (f"SPSDK refuses to export {e[1]['family']} {e[1]['target']}/{e[1]['auth']} ({e[2].get('export')}) "
+                               f"but the export model answers {g[0]} {g[1] if g[0] == 'e' else ''}")
                 elif e[0] == "export":
                     _, case, res, r = e
                     dts = bytes.fromhex(res["signed"][0][0]) if res.get("signed") else b""
@@ -722,8 +759,9 @@ def run(tier):
                         vlib.log("  disagreement: " + bad)
             rep.obligation("correspondence:Coq ROM model = reference ROM, Coq export model = SPSDK on all cases", ndis == 0,
                            f"{ndis} disagreements" if ndis else "")
-            rep.add_stream("model evaluations (rom / export / corrupted)", len(exprs), len(exprs) - len(tamper_model),
-                           samples=[{"n_rom+export": len(exprs) - len(tamper_model), "n_corrupted": len(tamper_model)}])
+            rep.add_stream("model evaluations (rom / export / refused / corrupted)", len(exprs), len(exprs) - len(tamper_model),
+                           samples=[{"n_rom+export": len(exprs) - len(tamper_model) - len(refused), "n_refused": len(refused),
+                                     "n_corrupted": len(tamper_model)}])
         except Exception as ex:  # noqa
             rep.obligation("correspondence:model evaluation", False, repr(ex)[-1500:])
     else:
@@ -775,7 +813,7 @@ def replay(path):
     if r.get("kind") == "tamper":
         bad = bytearray(img)
         bad[r["offset"]] ^= 1
-        ok, why = rom.accept(rom_cfg(fam, res["mixins"], res["image_type"]), rom_keys(r["case"], res), bytes(bad))
+        ok, why = rom.accept(rom_cfg(fam, res["mixins"], res["image_type"], case), rom_keys(r["case"], res), bytes(bad))
         print("corrupted image accepted by the reference ROM:", ok)
         return 1 if ok else 0
     fails, _ = oracle(r["case"], res, fam, offer)
